@@ -65,7 +65,7 @@ func getJSONInt32(val any, op string) (int, error) {
 	case json.Number:
 		if integer, err := val.Int64(); err == nil {
 			num = integer
-		} else if float, err := val.Float64(); err == nil {
+		} else if float, err := jsonNumberFloat(val); err == nil {
 			if math.IsInf(float, 0) || math.IsNaN(float) {
 				return 0, fmt.Errorf(
 					"%w: NaN or Infinity is not allowed for jsonpath %v",
